@@ -10,7 +10,7 @@
    spec_case : the observed history satisfies the property's specification,
                judged from the inputs and the observations only (it never
                calls [autota]). *)
-From Sdns Require Export Common.Base Gen.C09 C09.Model.
+From Sdns Require Export Common.Base Gen.C09 C09.Model C09.ModelFs.
 Open Scope N_scope.
 
 (* ------------------------------------------------------------ case syntax *)
@@ -26,7 +26,11 @@ Inductive ostep :=
 | ORollback (k : nat) (cfg' : list key) (post : obs)
   (* NewResolver on the same directory with config [cfg']; [tr] = how the tombstone file read at
      start-up (0 ok, 1 corrupt, 2 unreadable) *)
-| ORestart (cfg' : list key) (tr : N) (sr : bool) (post : obs).
+| ORestart (cfg' : list key) (tr : N) (sr : bool) (post : obs)
+  (* what a watcher of the state directory (inotify) saw during the run just recorded, temp files only plus the
+     replacements of the two named files, consecutive repeats collapsed: 10c+k, c = 0 tombstones / 1 state,
+     k = 1 temp created, 2 written, 3 closed after writing, 4 moved away, 5 named file replaced, 6 temp deleted *)
+| OFs (evs : list N).
 
 Inductive case :=
   (* key table (material, flags, tag); initial config; observation after NewResolver; steps *)
@@ -41,7 +45,11 @@ Inductive case :=
      Resolver.verifyRootKeys said (0 accepted, 1 ErrTrustAnchorsUnavailable, 2 refused otherwise) and what
      Resolver.Resolve(., DNSKEY, CD=0) did against the scripted root serving that response (0 answered with AD,
      4 answered without AD, 1 ErrTrustAnchorsUnavailable, 2 another error, 3 not observed) *)
-| CRootV (tbl : list (N * N * N)) (live : list key) (fe : fetch) (direct via : N).
+| CRootV (tbl : list (N * N * N)) (live : list key) (fe : fetch) (direct via : N)
+  (* a validating query of another kind (1 NXDOMAIN + SOA, 2 NODATA + SOA, 4 bare NXDOMAIN, 5 bare NOERROR:
+     authority(); 3 referral: validateDelegation()) through Resolver.Resolve under the trust set [live]; [via] as
+     in CRootV *)
+| CGate (live : list key) (kind via : N).
 
 (* short constructors for the driver *)
 Definition K (m f : N) : key := mk_key m f.
@@ -91,7 +99,7 @@ Definition disk_of (o : obs) : disk := mk_disk (o_state o) (o_tomb o).
 
 (* ------------------------------------------------------------ check_case *)
 Fixpoint check_steps (tag : key -> N) (live cfg : list key) (d : disk)
-         (prev : option (disk * result)) (steps : list ostep) : bool :=
+         (prev : option (disk * result * (unit -> list N))) (steps : list ostep) : bool :=
   match steps with
   | [] => true
   | ORun now fe fl post out nrev renames :: rest =>
@@ -99,13 +107,23 @@ Fixpoint check_steps (tag : key -> N) (live cfg : list key) (d : disk)
          are before any mutation) is a failed fetch for the model *)
       let budget := out =? 4 in
       let r := autota tag live cfg d now (if budget then FErr else fe) fl in
+      (* the file-system operations of this run as a directory watcher sees them (ModelFs.v); the write faults the
+         driver injects make the RENAME fail (a directory stands where the file should go) *)
+      let exp := fun _ : unit =>
+        obs_events (autota_ops tag live cfg d now (if budget then FErr else fe) fl
+                      (if f_twrite fl then FailRename else NoFail) (if f_swrite fl then FailRename else NoFail)) in
       keys_eqb (r_live r) (o_live post) && disk_eqb (r_disk r) post &&
       (budget && (out_code (r_out r) =? 1) || (out_code (r_out r) =? out)) && (r_nrev r =? nrev) && list_eqb (map wfile_code (r_writes r)) renames &&
-      check_steps tag (o_live post) cfg (disk_of post) (Some (d, r)) rest
+      check_steps tag (o_live post) cfg (disk_of post) (Some (d, r, exp)) rest
+  | OFs evs :: rest =>
+      match prev with
+      | None => false
+      | Some (_, _, exp) => list_eqb (exp tt) evs && check_steps tag live cfg d prev rest
+      end
   | ORollback k cfg' post :: rest =>
       match prev with
       | None => false
-      | Some (d0, r) =>
+      | Some (d0, r, _) =>
           disk_eqb (apply_writes d0 (firstn k (r_writes r))) post &&
           keys_eqb (restart_live cfg' (disk_of post) TROk false) (o_live post) &&
           check_steps tag (o_live post) cfg' (disk_of post) None rest
@@ -120,6 +138,22 @@ Definition check_hist (tbl : list (N * N * N)) (cfg : list key) (init : obs) (st
   check_steps (tag_of tbl) (o_live init) cfg (disk_of init) None steps.
 
 (* -------------------------------------------------------------- spec_case *)
+(* The specification for the persistence steps, judged from the watcher's event list alone ("atomic file replacement",
+   "tombstone first"): each named file is replaced only by moving a temp file into place that was created, written
+   and closed before, in that order (never written in place, never a half-written file); a temp file that is not
+   moved into place is deleted before the run ends; at most one attempt per file and run; everything about the
+   tombstone file happens before anything about the state file; and the replacements seen are the ones the run is
+   recorded with. *)
+Definition lifecycle_ok (l : list N) : bool :=
+  list_eqb l [] || list_eqb l [1; 2; 3; 4; 5] || list_eqb l [1; 6] || list_eqb l [1; 3; 6] || list_eqb l [1; 2; 6] ||
+  list_eqb l [1; 2; 3; 6].
+Definition spec_events (evs renames : list N) : bool :=
+  let tomb := filter (fun e => e <? 10) evs in
+  let state := map (fun e => e - 10) (filter (fun e => 10 <=? e) evs) in
+  list_eqb evs (tomb ++ map (fun e => e + 10) state) &&
+  lifecycle_ok tomb && lifecycle_ok state &&
+  list_eqb renames ((if existsb (N.eqb 5) tomb then [0] else []) ++ (if existsb (N.eqb 5) state then [1] else [])).
+
 (* All judgements below are made from the scripted inputs and the observed
    states; [autota] is not used. *)
 Section Spec.
@@ -213,20 +247,24 @@ Definition spec_run (ss : sstate) (pre : obs) (now : Z) (fe0 : fetch) (fl : faul
   let T := trusted_pre cfg pre fl in
   let old_mats := mats (o_live pre) ++ kmap_mats (o_state pre) ++ mats cfg in
   let state_recorded := memN 1 renames in
+  (* the tracking state after a run that changes nothing: "before the last run" is now, and the replacements it is
+     recorded with (none, if it behaved) are noted for a following rollback / watcher step *)
+  let ss0 := mk_ss (ss_cfg ss) (ss_record ss) (ss_streak ss) (ss_prom ss) (ss_rev ss) (ss_rev ss) []
+                   (ss_absent ss) (ss_streak ss) (ss_absent ss) renames in
   match f_tread fl with
   | TRCorrupt =>
       (* corrupt revocation store: fail closed, nothing written *)
-      (is_nil (o_live post) && disk_eqb (disk_of pre) post, ss)
+      (is_nil (o_live post) && disk_eqb (disk_of pre) post, ss0)
   | tr =>
     let unreadable_ok := match tr with TRUnreadable => is_nil (o_live post) | _ => true end in
     (* an unreadable state or tombstone file: failing closed (empty trust set, nothing written) is always acceptable *)
     if (f_sread fl || match tr with TRUnreadable => true | _ => false end)
-       && is_nil (o_live post) && disk_eqb (disk_of pre) post then (true, ss) else
+       && is_nil (o_live post) && disk_eqb (disk_of pre) post then (true, ss0) else
     match fe with
     | FErr =>
         (unreadable_ok && disk_eqb (disk_of pre) post && forallb (fun k => memN (k_mat k) old_mats) (o_live post)
          && (negb (is_nil (o_live pre)) || is_nil (o_live post))
-         && forallb (fun k => negb (memN (k_mat k) (ss_rev ss))) (o_live post), ss)
+         && forallb (fun k => negb (memN (k_mat k) (ss_rev ss))) (o_live post), ss0)
     | FResp keys sigs =>
       let fa := full_auth T sigs in
       let revs := revocations T keys sigs in
@@ -235,7 +273,7 @@ Definition spec_run (ss : sstate) (pre : obs) (now : Z) (fe0 : fetch) (fl : faul
            material enters the live set, a fail-closed empty set stays empty) *)
         (unreadable_ok && disk_eqb (disk_of pre) post && forallb (fun k => memN (k_mat k) old_mats) (o_live post)
          && (negb (is_nil (o_live pre)) || is_nil (o_live post))
-         && forallb (fun k => negb (memN (k_mat k) (ss_rev ss))) (o_live post), ss)
+         && forallb (fun k => negb (memN (k_mat k) (ss_rev ss))) (o_live post), ss0)
       else
         let rev_mats := mats revs in
         (* S4/S5 immediate: a presented, valid, self-signed revocation of a trusted anchor
@@ -331,6 +369,7 @@ Fixpoint spec_steps (ss : sstate) (cur : obs) (steps : list ostep) : bool :=
       let streak := if landed then ss_streak ss else ss_streak_before ss in
       let absent := if landed then ss_absent ss else ss_absent_before ss in
       spec_steps (mk_ss cfg' (mats (filter (fun k => negb (is_rev k)) cfg') ++ ss_record ss) streak (ss_prom ss) rev rev [] absent streak absent []) post rest
+  | OFs evs :: rest => spec_events evs (ss_renames ss) && spec_steps ss cur rest
   | ORestart cfg' tr sr post :: rest =>
       spec_steps (mk_ss cfg' (mats (filter (fun k => negb (is_rev k)) cfg') ++ ss_record ss) (ss_streak ss) (ss_prom ss) (ss_rev ss) (ss_rev ss) [] (ss_absent ss) (ss_streak ss) (ss_absent ss) []) post rest
   end.
@@ -376,6 +415,11 @@ Definition check_case (c : case) : bool :=
       (rootv_code (verify_root (tag_of tbl) live keys sigs) =? direct) &&
       ((via =? 3) || is_nil keys || (resolved_code (resolve_root (tag_of tbl) live keys sigs) =? via))
   | CRootV _ _ FErr _ _ => false
+  | CGate live kind via =>
+      match gate live with
+      | Some v => (resolved_code v =? via) || (via =? 3)
+      | None => true
+      end
   end.
 
 Definition spec_case (c : case) : bool :=
@@ -391,4 +435,6 @@ Definition spec_case (c : case) : bool :=
   | CTag flags proto alg material tag => rfc4034_tag flags proto alg material =? tag
   | CRootV tbl live (FResp keys sigs) direct via => spec_rootv live keys sigs direct via
   | CRootV _ _ FErr _ _ => false
+    (* fail closed: under an empty trust set no validating query is answered *)
+  | CGate live kind via => negb (is_nil live) || (via =? 1) || (via =? 3)
   end.
